@@ -54,6 +54,13 @@ def run_histories(binp, cases):
 
 
 FORMAT_WORKLOADS = [
+    # members filled from defaults next to format-checked members: what the object validator notes about defaulted members
+    # is per call
+    {"schema": {"type": "object", "properties": {"a": {"default": 1}, "b": {"default": "x"}, "c": {"default": [1]}, "id": {"default": 0},
+                                                   "f": {"type": "string", "format": "date"}, "g": {"type": "string", "format": "email"},
+                                                   "h": {"type": "string", "format": "uuid"}},
+                "required": ["a", "f"]},
+     "data": {"f": "2020-01-01", "g": "q@r.s", "h": "not-a-uuid"}, "root": ""},
     {"schema": {"type": "object", "properties": {"a": {"type": "string", "format": "date"},
                                                    "b": {"type": "array", "items": {"type": "string", "format": "email"}},
                                                    "c": {"allOf": [{"type": "string", "format": "uuid"}]}}},
@@ -74,6 +81,12 @@ FORMAT_WORKLOADS = [
 
 # follow-ups that need two live objects of each pooled kind at once
 FOLLOW_UPS = [
+    # required members missing at three levels of nesting: each level runs on another borrowed object validator
+    {"kind": "oneshot", "schema": {"schema": {"type": "object", "required": ["a", "b", "c", "id", "x-1"], "properties": {
+        "a": {"type": "integer"}, "b": {},
+        "child": {"type": "object", "required": ["a", "b", "c", "id"], "properties": {
+            "child": {"type": "object", "required": ["a", "b", "c", "id", "f"], "properties": {"a": {}}}}}}},
+                                   "data": {"z": 1, "child": {"child": {}}}, "root": ""}},
     {"kind": "oneshot", "schema": {"schema": {"allOf": [{"type": "string", "format": "date"}, {"anyOf": [{"maxLength": 3}, {"minLength": 1}]}]},
                                    "data": "2020-01-01", "root": ""}},
     {"kind": "oneshot", "schema": {"schema": {"properties": {"x": {"type": "integer", "maximum": 3}, "y": {"type": "string", "format": "email", "pattern": "^a"}},
